@@ -25,7 +25,7 @@ func (c15) ID() string { return "C15" }
 
 func (c15) Budget(tier string) int {
 	if tier == "thorough" {
-		return 12000
+		return 60000
 	}
 	return 3200
 }
@@ -120,6 +120,22 @@ func c15Scene(seed uint64) *dmgref.Scene {
 	s.LCDC = 0x81 | r.Byte()&0x7a // LCD on, BG on, 8x8 objects
 	s.SCX, s.SCY = r.Byte(), r.Byte()
 	s.WX, s.WY = uint8(r.Range(7, 166)), uint8(r.Intn(160))
+	if r.Chance(1, 3) {
+		// the two coordinate systems aligned or nearly aligned with each other: the background row/column
+		// under the window's first row/last column is the same map row/column, one before or one after
+		// (what a per-line or per-cell fetch shared between the two layers would get wrong)
+		s.SCY = uint8(-int(s.WY) + r.Range(-2, 2))
+		if r.Bool() {
+			s.SCX = uint8(166 - int(s.WX) + r.Range(-9, 9))
+		}
+		if r.Chance(1, 2) {
+			s.LCDC |= 0x20
+			if s.WY > 143 {
+				s.WY = uint8(r.Intn(144))
+				s.SCY = uint8(-int(s.WY) + r.Range(-2, 2))
+			}
+		}
+	}
 	s.BGP, s.OBP0, s.OBP1 = r.Byte(), r.Byte(), r.Byte()
 	if r.Bool() {
 		s.BGP = 0xe4
@@ -225,26 +241,40 @@ func (c15) Execute(sc *engine.Scenario) *engine.Result {
 	frames := int(sc.P("frames", 2))
 	var last []uint8
 	shown := 0
+	// every frame handed to the display is judged once all of its lines have been drawn from the scene
+	// that is current (LCD on and scene constant for a whole frame and a line): the first frame after
+	// the LCD was switched on, or after the scene changed, included
+	var cur *dmgref.Scene
+	curTag := ""
+	stableSince := uint64(0)
+	var compare func(s *dmgref.Scene, tag string)
 	m.OnFrame = func(f *image.RGBA) bool {
 		shown++
 		last = append(last[:0], f.Pix...)
+		if cur != nil && m.N >= stableSince+17556+128 && res.Violation == nil {
+			if m.N < stableSince+2*17556 {
+				res.Probe("first_whole_frame_after_switch_on_judged")
+			}
+			compare(cur, curTag)
+			if res.Violation != nil {
+				return true
+			}
+		}
 		return false
 	}
 	m.OnCycle = func() {
 		if m.N == onAt+1 {
 			m.Write(0xff40, s.LCDC)
 			res.Fault("lcd_switch_on")
+			cur, stableSince = s, m.N
 		}
 	}
-	// the first frame-loop pass contains the switch-on; then `frames` whole passes with a stable scene
-	m.RunFrames(1 + frames)
-	res.Cycles = m.N
-	if shown < 2 || len(last) != 160*144*4 {
-		res.Harness = fmt.Sprintf("display got %d frames of %d bytes", shown, len(last))
-		return res
-	}
-	compare := func(s *dmgref.Scene, tag string) {
-		want := s.Compose()
+	composed := map[*dmgref.Scene]*[144][160]uint8{}
+	compare = func(s *dmgref.Scene, tag string) {
+		if composed[s] == nil {
+			composed[s] = s.Compose()
+		}
+		want := composed[s]
 		res.Probe("frames_compared")
 		{
 			dg := engine.NewDigest()
@@ -290,6 +320,16 @@ func (c15) Execute(sc *engine.Scenario) *engine.Result {
 			}
 		}
 	}
+	// the first frame-loop pass contains the switch-on; then `frames` whole passes with a stable scene
+	m.RunFrames(1 + frames)
+	res.Cycles = m.N
+	if res.Violation != nil {
+		return res
+	}
+	if shown < 2 || len(last) != 160*144*4 {
+		res.Harness = fmt.Sprintf("display got %d frames of %d bytes", shown, len(last))
+		return res
+	}
 	compare(s, "")
 	if mode := sc.P("rescene", 0); mode != 0 && res.Violation == nil {
 		// the scene changes (objects hidden, attributes, scroll, palettes, window) in VBlank or
@@ -319,22 +359,28 @@ func (c15) Execute(sc *engine.Scenario) *engine.Result {
 					m.Write(0xff40, b.LCDC)
 					done = true
 					res.Fault("scene_change_in_vblank")
+					cur, curTag, stableSince = b, "after-scene-change/", m.N
 				}
 			default:
 				if m.N == offAt {
 					m.Write(0xff40, s.LCDC&0x7f)
 					res.Fault("lcd_switch_off")
+					cur = nil
 				}
 				if m.N == offAt+uint64(sc.P("off_for", 1)) {
 					apply()
 					m.Write(0xff40, b.LCDC)
 					done = true
 					res.Fault("scene_change_with_lcd_off")
+					cur, curTag, stableSince = b, "after-scene-change/", m.N
 				}
 			}
 		}
 		m.RunFrames(2 + frames)
 		res.Cycles = m.N
+		if res.Violation != nil {
+			return res
+		}
 		if !done {
 			res.Harness = "scene change never happened"
 			return res
